@@ -29,7 +29,7 @@ ASSUMPTIONS = ["nvmon.ref exact reference for vertex positions (uv within 1e-12 
 FLOORS = {'quick': {'topology': 150, 'vertex-on-surface': 1500, 'quads': 100, 'trim-cells': 1000, 'obj': 60, 'off': 60, 'stl-ascii': 60,
                     'stl-binary': 60, 'container': 30},
           'thorough': {'topology': 1500, 'vertex-on-surface': 15000, 'trim-cells': 10000}}
-MANDATORY_TAGS = ['spacing1', 'spacing>=2', 'spacing>=3', 'rational', 'trim:freeform', 'trim:spline', 'trim:reversed', 'trim:clockwise', 'container',
+MANDATORY_TAGS = ['spacing1', 'spacing>=2', 'spacing>=3', 'rational', 'trim:freeform', 'trim:spline', 'trim:reversed', 'trim:clockwise', 'trim:non-unit-domain', 'container',
                   'quad', 'non-unit-domain', 'export:file']
 TECHNIQUE = ("runtime monitoring: structural + exact-geometric oracle over every tessellation the workload produces (ids, indices, "
              "orientation, exact area cover, edge incidence, Euler characteristic, vertex = surface(uv)), cell-classification oracle "
@@ -62,7 +62,9 @@ def gen(rng, tier, shard, nshards):
                 break
         yield {'kind': 'plain', 'sd': sd, 'nu': nu, 'nv': nv, 'spacing': sp, 'seed': rng.randrange(1 << 30)}
         if i % 3 == 0:
-            yield {'kind': 'trim', 'sd': G.rand_shape(rng, 2, dim=3, clamped_only=True, maxextra=2, maxdeg=3, pcls='uniform'),
+            nonunit = rng.random() < 0.35
+            yield {'kind': 'trim', 'sd': G.rand_shape(rng, 2, dim=3, clamped_only=True, maxextra=2, maxdeg=3, pcls='uniform',
+                                                      normalize=not nonunit, lohi=(0.0, 2.0) if nonunit else None),
                    'seed': rng.randrange(1 << 30), 'n': rng.randint(6, 16 if tier == 'quick' else 30),
                    'trim': rng.choice(['freeform', 'spline', 'freeform-reversed', 'spline-reversed'])}
         if i % 4 == 1:
@@ -408,14 +410,21 @@ def check_trim(case, ctx):
     if reversed_:
         ctx.tag('trim:reversed')
     ctx.nontriv(True)
-    # closed trim polygon well inside the unit square
+    # closed trim polygon well inside the parametric rectangle (the unit square, or the un-normalised domain)
+    dom = G.domains_of(o)
+    (ua, ub), (va, vb) = dom
+    if (ua, ub, va, vb) != (0.0, 1.0, 0.0, 1.0):
+        ctx.tag('trim:non-unit-domain')
+
+    def P2(x, y):
+        return [ua + x * (ub - ua), va + y * (vb - va)]
     cx, cy = rng.uniform(0.4, 0.6), rng.uniform(0.4, 0.6)
     if kind.startswith('freeform'):
         m = rng.randint(3, 7)
         angs = sorted(rng.uniform(0, 2 * math.pi) for _ in range(m))
         if max(b - a for a, b in zip(angs, angs[1:] + [angs[0] + 2 * math.pi])) > 2.6:
             angs = [2 * math.pi * k / m for k in range(m)]
-        poly = [[cx + rng.uniform(0.15, 0.3) * math.cos(a), cy + rng.uniform(0.15, 0.3) * math.sin(a)] for a in angs]
+        poly = [P2(cx + rng.uniform(0.15, 0.3) * math.cos(a), cy + rng.uniform(0.15, 0.3) * math.sin(a)) for a in angs]
         if rng.random() < 0.5:
             poly.reverse()          # clockwise trims are as valid as counter-clockwise ones
             ctx.tag('trim:clockwise')
@@ -424,7 +433,7 @@ def check_trim(case, ctx):
         trim.evaluate(points=poly)
     else:
         r = rng.uniform(0.15, 0.3)
-        cps = [[cx - r, cy - r], [cx + r, cy - r], [cx + r, cy + r], [cx - r, cy + r], [cx - r, cy - r]]
+        cps = [P2(cx - r, cy - r), P2(cx + r, cy - r), P2(cx + r, cy + r), P2(cx - r, cy + r), P2(cx - r, cy - r)]
         if rng.random() < 0.5:
             cps.reverse()
             ctx.tag('trim:clockwise')
@@ -447,22 +456,22 @@ def check_trim(case, ctx):
     if not ctx.check(all(all(0 <= i < len(V) for i in f.data) and len(f.data) == 3 for f in Fc), 'trim/face-index',
                      'trimmed mesh: face references a missing vertex', what='topology'):
         return
-    dom = G.domains_of(o)
-    if not vertices_on_surface(ctx, S, V, dom, sc, rng, 'trim/vertex-off-surface', limit=25):
+    if not vertices_on_surface(ctx, S, V, dom, sc, rng, 'trim/vertex-off-surface', limit=40):
         return
     # per-cell kept area
-    h = 1.0 / (n - 1)
+    hu, hv = (ub - ua) / (n - 1), (vb - va) / (n - 1)
     cell_area = Counter()
     for f in Fc:
         uv = [V[i].uv for i in f.data]
         a = abs((uv[1][0] - uv[0][0]) * (uv[2][1] - uv[0][1]) - (uv[2][0] - uv[0][0]) * (uv[1][1] - uv[0][1])) / 2
         c = [sum(p[0] for p in uv) / 3, sum(p[1] for p in uv) / 3]
-        cell_area[(min(n - 2, int(c[0] / h)), min(n - 2, int(c[1] / h)))] += a
+        cell_area[(min(n - 2, int((c[0] - ua) / hu)), min(n - 2, int((c[1] - va) / hv)))] += a
     polyF = [(F(p[0]), F(p[1])) for p in tp[:-1]]
-    diag = h * math.sqrt(2)
+    diag = math.hypot(hu, hv)
+    h = math.sqrt(hu * hv)
     for i in range(n - 1):
         for j in range(n - 1):
-            c = ((i + 0.5) * h, (j + 0.5) * h)
+            c = (ua + (i + 0.5) * hu, va + (j + 0.5) * hv)
             dist = min(point_seg_dist(c, a, b) for a, b in zip(tp, tp[1:]))
             if dist <= 1.5 * diag:
                 continue          # within one cell of the trim: nothing is demanded
@@ -470,7 +479,7 @@ def check_trim(case, ctx):
             kept = inside if reversed_ else not inside
             a = cell_area.get((i, j), 0.0)
             want = h * h if kept else 0.0
-            if not ctx.check(abs(a - want) <= 1e-9, 'trim/cell', 'trim %s: cell (%d,%d) far from the trim curve is %s the trimmed region but '
+            if not ctx.check(abs(a - want) <= 1e-9 * max(1.0, h * h), 'trim/cell', 'trim %s: cell (%d,%d) far from the trim curve is %s the trimmed region but '
                              'carries triangle area %r (cell area %r)' % (kind, i, j, 'outside' if kept else 'inside', a, h * h),
                              what='trim-cells'):
                 return
